@@ -146,18 +146,18 @@ class Report:
         skipped = 0
         for key, (harness, c, n) in seen.items():
             # a change that breaks everything can produce thousands of distinct sites; replaying each (often in a subprocess) would
-            # take hours and adds nothing: at most MAX_REPLAYS per (harness, label), the rest is counted (inconclusive unless a
+            # take hours and adds nothing: once MAX_REPLAYS of them were confirmed as violations (or failed to replay) per (harness, label) the rest is only counted (inconclusive unless a
             # violation was confirmed anyway)
             k2 = (harness, c["label"])
             if replayed_per_label.get(k2, 0) >= MAX_REPLAYS:
                 skipped += 1
                 continue
-            replayed_per_label[k2] = replayed_per_label.get(k2, 0) + 1
             try:
                 rep, detail = replay(harness, c)
             except Exception as e:  # noqa
                 rep, detail = None, "replay raised " + repr(e) + "\n" + traceback.format_exc()
             if rep is None or rep is False:
+                replayed_per_label[k2] = replayed_per_label.get(k2, 0) + 1
                 nonrepro.append({"harness": harness, "cex": c, "detail": str(detail)[:2000]})
                 continue
             hit = None
@@ -170,6 +170,7 @@ class Report:
                 known_by_id.setdefault(kid, known[hit])
                 known_hits.setdefault(kid, []).append({"harness": harness, "cex": c, "paths": n, "detail": str(detail)[:500]})
             else:
+                replayed_per_label[k2] = replayed_per_label.get(k2, 0) + 1
                 violations.append({"harness": harness, "cex": c, "paths": n, "detail": str(detail)[:2000]})
         if skipped:
             self.add_inconclusive(f"{skipped} further counterexample sites were not replayed (cap of {MAX_REPLAYS} per harness and label)")
